@@ -1059,6 +1059,68 @@ SUBST_CONSTANTS = [('HplVacuousTruth', 'replace_var_reference'), ('HplVacuousTru
                    ('HplContradiction', 'replace_var_reference'), ('HplContradiction', 'replace_self_reference')]
 
 
+def _kind_test_table(ctx: Ctx, fi, want: str) -> Optional[str]:
+    """The helper `fi(expr[, alias])` read as a boolean function of the tests it makes, compared on every assignment with
+    is_value and <want> [and (alias is None or expr.name == alias)]. Any other test on its arguments is reported."""
+    import itertools
+    ps = fi.params()
+    if not ps or len(ps) > 2:
+        return f'unexpected parameters {ps}'
+    e = Sym(ps[0])
+    al = Sym(ps[1]) if len(ps) > 1 else None
+    base = {Attr(e, 'is_value'): 'v', Attr(e, want): 'k'}
+
+    def atom(t):
+        if t in base:
+            return base[t], True
+        if al is not None and isinstance(t, Op) and len(t.args) == 2:
+            a, b = t.args
+            if t.op in ('is', 'is not', '==', '!=') and {a, b} == {al, Const(None)}:
+                return 'n', t.op in ('is', '==')
+            if t.op in ('==', '!=') and {a, b} == {Attr(e, 'name'), al}:
+                return 'e', t.op == '=='
+        return None
+
+    def val(t, asg):
+        if isinstance(t, Const) and isinstance(t.value, bool):
+            return t.value
+        a = atom(t)
+        if a is not None:
+            return asg[a[0]] == a[1]
+        if isinstance(t, Op) and t.op == 'not' and len(t.args) == 1:
+            return not val(t.args[0], asg)
+        if isinstance(t, Op) and t.op == 'and':
+            return all(val(x, asg) for x in t.args)
+        if isinstance(t, Op) and t.op == 'or':
+            return any(val(x, asg) for x in t.args)
+        if isinstance(t, Ite):
+            return val(t.a, asg) if val(t.test, asg) else val(t.b, asg)
+        if isinstance(t, Call) and isinstance(t.func, Ext) and t.func.name == 'bool' and len(t.args) == 1:
+            return val(t.args[0], asg)
+        raise _Escape(f'a test the reference does not make: {t!r}')
+    outs = expand_outcomes(ctx.ev.run(fi, {p: Sym(p) for p in ps}))
+    names = ['v', 'k'] + (['n', 'e'] if al is not None else [])
+    try:
+        for bits in itertools.product((False, True), repeat=len(names)):
+            asg = dict(zip(names, bits))
+            if al is not None and asg['n'] and asg['e']:
+                continue        # alias is None and name == alias: names are strings
+            got = []
+            for o in outs:
+                if all(val(g, asg) == pol for g, pol in o.guards):
+                    if o.kind != 'return' or o.value is None:
+                        return f'{o.kind} under {asg}'
+                    got.append(val(o.value, asg))
+            exp = asg['v'] and asg['k'] and (al is None or asg['n'] or asg['e'])
+            if len(set(got)) != 1:
+                return f'{len(got)} paths under {asg}'
+            if got[0] != exp:
+                return f'answers {got[0]} where is_value={asg["v"]}, {want}={asg["k"]}' + (f', alias is None={asg["n"]}, name == alias={asg["e"]}' if al is not None else '')
+    except _Escape as x:
+        return str(x)
+    return None
+
+
 def _subst_eval(ctx: Ctx) -> Evaluator:
     """the default evaluator, except that calls of the substitution methods themselves stay visible as calls (a
     non-virtual base-class implementation would otherwise be looked through at the delegation site)"""
@@ -1196,11 +1258,11 @@ def R5(ctx: Ctx) -> RuleResult:
     # kind tests used by the generic replace
     for fn, want in (('is_self_reference', 'is_this_msg'), ('is_var_reference', 'is_variable')):
         f2 = m.func('hpl.ast.expressions', fn, 'R5')
-        src = ast.unparse(f2.node)
-        if f'expr.is_value and expr.{want}' in src:
-            r.ok(f'{fn}: is_value and {want}')
+        why = _kind_test_table(ctx, f2, want)
+        if why is None:
+            r.ok(f'{fn}: is_value and {want}' + (' and (alias is None or name == alias)' if len(f2.params()) > 1 else '') + ' (truth table over the tests the helper makes)')
         else:
-            r.fail(fn, f'{fn} no longer tests is_value and {want}', f2.where)
+            r.fail(fn, f'{fn} is not "is_value and {want}' + (' and (alias is None or expr.name == alias)' if len(f2.params()) > 1 else '') + f'": {why}', f2.where)
     # event normalisation: alias -> this message at construction
     se = m.cls('HplSimpleEvent', 'R5')
     pi = se.resolve('__attrs_post_init__')
@@ -1384,4 +1446,126 @@ def R6(ctx: Ctx) -> RuleResult:
     return r
 
 
-RULES = {'R1': R1, 'R2': R2, 'R3': R3, 'R4': R4, 'R4b': R4b, 'R5': R5, 'R5b': R5b, 'R6': R6}
+# ------------------------------------------------------------------- R13
+_R13_CONTROL = """
+def _control_bad(expr):
+    lb = _simplify(expr.min_value)
+    ub = _simplify(expr.max_value)
+    return HplRange(lb, ub)
+
+def _control_good(expr):
+    lb = _simplify(expr.min_value)
+    return HplRange(lb, expr.max_value, exclude_min=expr.exclude_min, exclude_max=expr.exclude_max)
+
+def _control_factory(scope):
+    return [HplScope.after(e) for e in scope.activator.simple_events()]
+"""
+
+
+def _r13_scan(m, mod, fn: ast.AST) -> Tuple[int, List[Tuple[str, str, List[str], str, int]]]:
+    """(constructor / factory calls of AST classes seen, [(class, how, omitted fields, source field, line)]) for one
+    function of `mod`: a call that builds a node of class K from the fields of a node (`x.f` with f a field of K reaches
+    an argument, directly or through local names) while leaving semantic fields of K at their defaults."""
+    root = m.ast_root()
+    defs: Dict[str, List[ast.AST]] = {}
+
+    def bind(tgt, val):
+        for n in ast.walk(tgt):
+            if isinstance(n, ast.Name):
+                defs.setdefault(n.id, []).append(val)
+    for n in ast.walk(fn):
+        if isinstance(n, ast.Assign):
+            for t in n.targets:
+                bind(t, n.value)
+        elif isinstance(n, (ast.AnnAssign, ast.AugAssign, ast.NamedExpr)) and n.value is not None:
+            bind(n.target, n.value)
+        elif isinstance(n, (ast.For, ast.comprehension)):
+            bind(n.target, n.iter)
+        elif isinstance(n, ast.withitem) and n.optional_vars is not None:
+            bind(n.optional_vars, n.context_expr)
+
+    def reach(exprs) -> Dict[str, str]:
+        seen_names, out, work = set(), {}, list(exprs)
+        while work:
+            e = work.pop()
+            for n in ast.walk(e):
+                if isinstance(n, ast.Attribute) and isinstance(n.value, ast.Name):
+                    out.setdefault(n.attr, n.value.id)
+                if isinstance(n, ast.Name) and n.id not in seen_names:
+                    seen_names.add(n.id)
+                    work.extend(defs.get(n.id, []))
+        return out
+
+    def given_by_call(ci, call: ast.Call, skip_first: int = 0) -> Optional[set]:
+        if any(isinstance(a, ast.Starred) for a in call.args) or any(k.arg is None for k in call.keywords):
+            return None
+        pos, _ = ci.init_params()
+        given = {f.name for f in pos[:len(call.args)]} | {k.arg for k in call.keywords}
+        return given
+    calls, hits = 0, []
+    for c in ast.walk(fn):
+        if not isinstance(c, ast.Call):
+            continue
+        ci, how, given = None, '', None
+        if isinstance(c.func, ast.Name):
+            res = m.resolve_name(mod, c.func.id)
+            if res and res[0] == 'class' and root in res[1].mro():
+                ci, how = res[1], f'{c.func.id}(...)'
+                given = given_by_call(ci, c)
+        elif isinstance(c.func, ast.Attribute) and isinstance(c.func.value, ast.Name):
+            res = m.resolve_name(mod, c.func.value.id)
+            if res and res[0] == 'class' and root in res[1].mro():
+                fac = res[1].resolve(c.func.attr)
+                if fac is not None and fac.kind == 'classmethod':
+                    rets = [x for x in ast.walk(fac.node) if isinstance(x, ast.Return)]
+                    if len(rets) == 1 and isinstance(rets[0].value, ast.Call) and isinstance(rets[0].value.func, ast.Name) and rets[0].value.func.id == fac.params()[0]:
+                        ci, how = res[1], f'{c.func.value.id}.{c.func.attr}(...)'
+                        inner = rets[0].value
+                        pos, _ = ci.init_params()
+                        fparams = set(fac.params()[1:])
+                        pairs = [(f.name, a) for f, a in zip(pos, inner.args)] + [(k.arg, k.value) for k in inner.keywords if k.arg]
+                        # a field the factory fills from one of its parameters is given; a constant is a default
+                        given = {n for n, v in pairs if any(isinstance(x, ast.Name) and x.id in fparams for x in ast.walk(v))}
+        if ci is None or given is None:
+            continue
+        calls += 1
+        fields = [f for f in ci.fields() if f.init and f.name not in ('metadata', 'data_type')]   # the type is re-derived on construction (A3, A4)
+        names = {f.name for f in fields}
+        omitted = sorted(f.name for f in fields if f.name not in given and f.has_default)
+        if not omitted:
+            continue
+        src = reach(list(c.args) + [k.value for k in c.keywords])
+        carried = sorted(f for f in src if f in names)
+        if carried and not any(f in src for f in omitted):
+            hits.append((ci.name, how, omitted, f'{src[carried[0]]}.{carried[0]}', c.lineno))
+    return calls, hits
+
+
+def R13(ctx: Ctx) -> RuleResult:
+    r = RuleResult('R13', 'a rewriting function that rebuilds a node from the fields of a node of the same class carries every semantic field over (but(), or all defaulted fields passed): no flag, bound or terminator silently returns to its default')
+    m = ctx.model
+    # positive / negative control on every run (the expected count on the tree is zero)
+    mod = m.module('hpl.rewrite', 'R13')
+    ctl = ast.parse(_R13_CONTROL)
+    got = {fn.name: _r13_scan(m, mod, fn)[1] for fn in ctl.body}
+    if not (got['_control_bad'] and got['_control_bad'][0][2] == ['exclude_max', 'exclude_min'] and not got['_control_good'] and got['_control_factory'] and 'terminator' in got['_control_factory'][0][2]):
+        raise AnalysisError('R13', f'control examples are not recognised any more: {got}')
+    total = 0
+    nfun = 0
+    for mname in ('hpl.rewrite',):
+        mod = m.module(mname, 'R13')
+        for fi in list(mod.functions.values()):
+            nfun += 1
+            calls, hits = _r13_scan(m, mod, fi.node)
+            total += calls
+            for cname, how, omitted, srcf, line in hits:
+                r.fail(f'{fi.name}:{cname}:{",".join(omitted)}', f'{how} is built from {srcf} but leaves {omitted} of {cname} at the default: the rebuilt node loses them (use but(), or pass them on)', f'{mod.relpath}:{line}')
+            if not hits and calls:
+                r.ok(f'{fi.name}: {calls} construction site(s), none rebuilds a node with dropped fields')
+    r.counts['functions scanned'] = nfun
+    r.floor('constructor / factory calls of AST classes in hpl.rewrite', total, 20)
+    r.ok('controls: HplRange(lb, ub) from expr.min_value reported; with both flags passed silent; HplScope.after(e) from scope.activator reported')
+    return r
+
+
+RULES = {'R13': R13, 'R1': R1, 'R2': R2, 'R3': R3, 'R4': R4, 'R4b': R4b, 'R5': R5, 'R5b': R5b, 'R6': R6}
